@@ -128,7 +128,7 @@ func TestC19(t *testing.T) {
 	curProp = "C19"
 	r := vf.NewRec("C19")
 	defer r.Finish(t)
-	guard.StartWatchdog(*vf.Out, "C19")
+	guard.StartWatchdog(*vf.Out, vf.Label("C19"))
 
 	for _, rf := range r.LoadReplays(t) {
 		var c caseC19
